@@ -17,6 +17,16 @@ Proof. reflexivity. Qed.
 Lemma mtime_update_spec (m : Z) : mtime_update true (Some m) = Some m.
 Proof. reflexivity. Qed.
 
+(* the shape bus.py has NOW (regenerated): the repaired statements.  Reverting one of the repairs in /repo flips the
+   constant in Gen/Gen_c17.v and this lemma -- hence every theorem of Properties/C17.v resting on it -- stops compiling. *)
+Lemma repairs_in_place :
+  reader_cfg_by_label = true /\ lru_update_after_read = true /\ get_loads = true /\
+  iter_element_loads = true /\ iter_element_items_loads = true /\ sort_values_from_own_series = true.
+Proof. repeat split; reflexivity. Qed.
+
+Lemma lru_after_read : lru_update_after_read = true.
+Proof. apply repairs_in_place. Qed.
+
 Section Rel.
 Variables L F : Type.
 Variable leqb : L -> L -> bool.
@@ -94,7 +104,7 @@ Record Rel (st : store) (m : mbus) (s : sbus) : Prop := mkRel {
   R_la : forall k, mb_mp L F m = Some k ->
            NoDup (mb_la L F m) /\
            filter (isld (mb_labels L F m) (mb_loaded L F m)) (mb_la L F m) = sb_cache L s /\
-           (m_coherent st = true -> forall l, In l (mb_la L F m) -> isld (mb_labels L F m) (mb_loaded L F m) l = true)
+           (forall l, In l (mb_la L F m) -> isld (mb_labels L F m) (mb_loaded L F m) l = true)
 }.
 
 Lemma isld_cons_head x r b lr : isld (x :: r) (b :: lr) x = b.
